@@ -208,7 +208,10 @@ def setupFromFile(foldername, constantFile: str = None, **kwargs):
     else:
         list_of_files = glob("{0}/grid_*".format(foldername))
         if (len(list_of_files) > 0):
-            filename = max(list_of_files)
+            # choose the file with the largest time (the zero-padded names
+            # only sort correctly as strings while they have equal lengths)
+            filename = max(list_of_files, key=lambda f: float(
+                os.path.basename(f)[len("grid_"):-3]))
             t = int(filename.split('_')[-1].split('.')[0])
         else:
             filename = None
